@@ -7,7 +7,7 @@ The aggregator's `f64` arithmetic over the exact rationals (C05, real-arithmetic
 
 `instNumRat` interprets the operations of `TV.Agg.Num` in ℚ, so that `Hop ℚ` is the aggregator
 with exact arithmetic.  IEEE ROUNDING IS NOT MODELLED: these theorems say that the *formulas* the
-code uses compute what they should (or not – see `m2_is_not_the_squared_deviation_sum`), they do
+code uses compute what they should, they do
 not bound the floating point error (the harness compares the real `f64` results with the bit-exact
 `Float` run of the same model, and with two-pass `f64` formulas at relative tolerance 1e-9).
 -/
@@ -70,12 +70,8 @@ instance : ExactDur Rat where
 /-- `mean += (x - mean) / n` after incrementing `n`; state = (n, mean) -/
 def meanStep (s : Nat × Rat) (x : Rat) : Nat × Rat := (s.1 + 1, s.2 + (x - s.2) / ((s.1 + 1 : Nat) : Rat))
 
-/-- the code's `m2 += (x - mean_new) * (x - mean_new)`; state = (n, mean, m2) -/
-def m2Step (s : Nat × Rat × Rat) (x : Rat) : Nat × Rat × Rat :=
-  let mean' := s.2.1 + (x - s.2.1) / ((s.1 + 1 : Nat) : Rat)
-  (s.1 + 1, mean', s.2.2 + (x - mean') * (x - mean'))
-
-/-- Welford's update `M2 += (x - mean_old) * (x - mean_new)` -/
+/-- Welford's update as coded: `delta = x - mean; mean += delta / n; m2 += delta * (x - mean)`;
+state = (n, mean, m2) -/
 def welfordStep (s : Nat × Rat × Rat) (x : Rat) : Nat × Rat × Rat :=
   let mean' := s.2.1 + (x - s.2.1) / ((s.1 + 1 : Nat) : Rat)
   (s.1 + 1, mean', s.2.2 + (x - s.2.1) * (x - mean'))
@@ -146,25 +142,13 @@ theorem welford_two_pass (xs : List Rat) :
       field_simp
       ring
 
-/-- the code's increment is Welford's increment scaled by `(n − 1) / n`: with
-`mean' = mean + (x − mean)/n`, `(x − mean')² = ((n−1)/n) · (x − mean)(x − mean')` -/
-theorem m2_increment (n : Nat) (mean x : Rat) :
-    let mean' := mean + (x - mean) / ((n + 1 : Nat) : Rat)
-    (x - mean') * (x - mean') = ((n : Rat) / ((n + 1 : Nat) : Rat)) * ((x - mean) * (x - mean')) := by
-  intro mean'
-  have hne : ((n + 1 : Nat) : Rat) ≠ 0 := by positivity
-  simp only [mean']
-  push_cast at hne ⊢
-  field_simp
-  ring
-
-/-- FINDING: what the code accumulates in `m2` is *not* the sum of squared deviations.  For the
-series 1 ms, 3 ms the code gets `m2 = 1` (so `stddev_ms = 1`), the sum of squared deviations from
-the mean 2 is `2` (sample standard deviation `√2`). -/
-theorem m2_is_not_the_squared_deviation_sum :
-    ([1, 3].foldl m2Step (0, 0, 0)).2.2 = 1 ∧ ([1, 3].foldl welfordStep (0, 0, 0)).2.2 = 2 ∧
-    ([1, 3].map fun x : Rat => (x - 2) * (x - 2)).sum = 2 := by
-  refine ⟨?_, ?_, ?_⟩ <;> norm_num [m2Step, welfordStep]
+/-
+Historical note (not a theorem about the present code): before the repair of state.rs the update was
+`hop.m2 += (dur_ms - hop.mean) * (dur_ms - hop.mean)` *after* `hop.mean` had been updated, i.e. both
+factors used the new mean.  That increment is Welford's increment scaled by `(n−1)/n`; on the series
+1 ms, 3 ms it yields `m2 = 1` where the sum of squared deviations is 2 (`stddev_ms` 1 instead of √2).
+The harness oracle `c05-stddev` detects it.
+-/
 
 /-! ## the model over ℚ follows these recurrences -/
 
@@ -176,11 +160,12 @@ theorem msOf_snoc (ds : List Nat) (d : Nat) : msOf (ds ++ [d]) = msOf ds ++ [(d 
 
 /-- C05 (real arithmetic): over ℚ, after any outcomes `os` of a hop,
 `mean`  is the running-mean recurrence over the rtts in ms (= their arithmetic mean, `mean_eq`),
-`m2`    is the code's recurrence `m2Step` (≠ Welford, see above),
+`m2`    is Welford's recurrence over the same series (= the sum of squared deviations from the
+        mean, `welford_two_pass`),
 `javg`  is the running-mean recurrence over the jitter series (= its arithmetic mean). -/
 theorem num_fold (ms : Nat) (os : List Outcome) :
     let h := os.foldl (hopStep (F := Rat) ms) Hop.default
-    (h.totalRecv, h.mean, h.m2) = (msOf (rtts os)).foldl m2Step (0, 0, 0) ∧
+    (h.totalRecv, h.mean, h.m2) = (msOf (rtts os)).foldl welfordStep (0, 0, 0) ∧
     (h.totalRecv, h.javg) = (msOf (jitters (rtts os))).foldl meanStep (0, 0) := by
   induction os using snoc_induction with
   | nil => simp [Hop.default, msOf, rtts, jitters, jittersFrom]; rfl
@@ -198,7 +183,7 @@ theorem num_fold (ms : Nat) (os : List Outcome) :
     | awaited p l => simpa [hopStep, Hop.awaited, rtts_snoc, Outcome.rtt] using ⟨i1, i2⟩
     | complete c n =>
       have key : ((h.complete ms c).totalRecv, (h.complete ms c).mean, (h.complete ms c).m2) =
-            (msOf (rtts (os ++ [Outcome.complete c n]))).foldl m2Step (0, 0, 0) ∧
+            (msOf (rtts (os ++ [Outcome.complete c n]))).foldl welfordStep (0, 0, 0) ∧
           ((h.complete ms c).totalRecv, (h.complete ms c).javg) =
             (msOf (jitters (rtts (os ++ [Outcome.complete c n])))).foldl meanStep (0, 0) := by
         simp only [jitters] at i2
@@ -224,7 +209,7 @@ theorem num_fold (ms : Nat) (os : List Outcome) :
 theorem mean_is_arithmetic_mean (ms : Nat) (os : List Outcome) (h : rtts os ≠ []) :
     (os.foldl (hopStep (F := Rat) ms) Hop.default).mean = (msOf (rtts os)).sum / (rtts os).length := by
   have h1 := (num_fold ms os).1
-  have hmean : ∀ xs : List Rat, ((xs.foldl m2Step (0, 0, 0)).1, (xs.foldl m2Step (0, 0, 0)).2.1) = xs.foldl meanStep (0, 0) := by
+  have hmean : ∀ xs : List Rat, ((xs.foldl welfordStep (0, 0, 0)).1, (xs.foldl welfordStep (0, 0, 0)).2.1) = xs.foldl meanStep (0, 0) := by
     intro xs
     induction xs using snoc_induction with
     | nil => rfl
@@ -249,6 +234,21 @@ theorem javg_is_mean_jitter (ms : Nat) (os : List Outcome) (h : rtts os ≠ []) 
     intro h'; apply h; apply List.length_eq_zero_iff.1; rw [← hlen, h']; rfl
   rw [h2, mean_eq _ (by intro h'; apply hne; unfold msOf at h'; exact List.map_eq_nil_iff.1 h')]
   simp [msOf, hlen]
+
+/-- `m2` is the sum of squared deviations of the round-trip times (ms) from their mean, and `mean`
+is that mean -/
+theorem m2_is_squared_deviation_sum (ms : Nat) (os : List Outcome) :
+    let h := os.foldl (hopStep (F := Rat) ms) Hop.default
+    ((rtts os).length : Rat) * h.mean = (msOf (rtts os)).sum ∧
+    h.m2 = ((msOf (rtts os)).map fun x => (x - h.mean) * (x - h.mean)).sum := by
+  intro h
+  have h1 := (num_fold ms os).1
+  obtain ⟨w1, w2, w3⟩ := welford_two_pass (msOf (rtts os))
+  have hm : h.mean = ((msOf (rtts os)).foldl welfordStep (0, 0, 0)).2.1 := congrArg (fun t => t.2.1) h1
+  have hq : h.m2 = ((msOf (rtts os)).foldl welfordStep (0, 0, 0)).2.2 := congrArg (fun t => t.2.2) h1
+  have hl : (msOf (rtts os)).length = (rtts os).length := by simp [msOf]
+  rw [hl] at w2
+  exact ⟨by rw [hm]; exact w2, by rw [hq, hm]; exact w3⟩
 
 /-- the derived getters over ℚ: `0 ≤ loss_pct ≤ 100`, `best ≤ avg_ms ≤ worst` -/
 theorem derived_ranges_rat (h : Hop Rat) (hrs : h.totalRecv ≤ h.totalSent) :
